@@ -216,7 +216,7 @@ func init() {
 		},
 		Batches:    func(t string) int { return pick(t, 4, 16) },
 		Floor:      func(t string) int { return pick(t, 200, 4000) },
-		TimeoutSec: func(t string) int { return pick(t, 600, 3000) },
+		TimeoutSec: func(t string) int { return pick(t, 120, 3000) },
 		Child:      c07Child,
 	})
 }
